@@ -11,6 +11,10 @@ def line(cid, machine, src, inputs=(), settings=(1024, 1024, 1024, 15), segs=('r
     for s in segs:
         if s.startswith('steps:'):
             ss.append('(steps %s)' % s[6:])
+        elif s.startswith('stepall:'):
+            ss.append('(stepall %s)' % s[8:])
+        elif s.startswith('finish:'):
+            ss.append('(finish %s)' % s[7:])
         elif s.startswith('call:'):
             ss.append('(call %s)' % s[5:])
         else:
